@@ -24,6 +24,7 @@ type constSlice struct {
 }
 
 type sentinel struct {
+	pkg    *types.Package
 	name   string
 	rfc    bool // &RFC6749Error{...}
 	fields map[string]constant.Value
@@ -87,6 +88,8 @@ func (v *Verifier) collectSentinels() {
 	for _, p := range v.pkgs {
 		if p.Types != nil && p.Types.Path() == repoModule {
 			root = p.Types
+		}
+		if p.Types != nil && strings.HasPrefix(p.Types.Path(), repoModule) {
 			for _, f := range p.Syntax {
 				for _, d := range f.Decls {
 					gd, ok := d.(*ast.GenDecl)
@@ -99,7 +102,7 @@ func (v *Verifier) collectSentinels() {
 							if i >= len(vs.Values) || !strings.HasPrefix(n.Name, "Err") {
 								continue
 							}
-							s := &sentinel{name: n.Name, fields: map[string]constant.Value{}}
+							s := &sentinel{pkg: p.Types, name: n.Name, fields: map[string]constant.Value{}}
 							switch e := vs.Values[i].(type) {
 							case *ast.UnaryExpr:
 								cl, ok := e.X.(*ast.CompositeLit)
@@ -138,7 +141,12 @@ func (v *Verifier) collectSentinels() {
 			}
 		}
 	}
-	sort.Slice(v.sentinels, func(i, j int) bool { return v.sentinels[i].name < v.sentinels[j].name })
+	sort.Slice(v.sentinels, func(i, j int) bool {
+		if v.sentinels[i].pkg.Path() != v.sentinels[j].pkg.Path() {
+			return v.sentinels[i].pkg.Path() < v.sentinels[j].pkg.Path()
+		}
+		return v.sentinels[i].name < v.sentinels[j].name
+	})
 	if root == nil {
 		return
 	}
@@ -175,7 +183,7 @@ func (v *Verifier) collectSentinels() {
 	v.constSlices = keptCS
 	var kept []*sentinel
 	for _, s := range v.sentinels {
-		if reassigned[s.name] {
+		if reassigned[s.pkg.Path()+"."+s.name] {
 			v.loadNotes = append(v.loadNotes, "sentinel "+s.name+" is reassigned somewhere: no facts assumed about it")
 			continue
 		}
@@ -228,11 +236,14 @@ func (v *Verifier) assumeSentinels(c *Ctx, st *State, guard *Term) {
 	c.sc.declareFun("ehead", []Sort{SV}, SV)
 	var plain []*Term
 	for _, s := range v.sentinels {
-		obj := root.Scope().Lookup(s.name)
+		obj := s.pkg.Scope().Lookup(s.name)
 		if obj == nil {
 			continue
 		}
-		gname := smtName("glob_" + repoModule + "." + s.name)
+		if _, isVar := obj.(*types.Var); !isVar {
+			continue
+		}
+		gname := smtName("glob_" + s.pkg.Path() + "." + s.name)
 		c.sc.declareConst(gname, SV)
 		ptr := c.loadObj(st, &Term{gname, SV}, obj.Type()).T
 		facts := []*Term{mk(SBool, "(and (not (= %s null)) (< (birth %s) 0))", gname, gname), tNot(tEq(ptr, tNull)), mk(SBool, "(< (birth %s) 0)", ptr.S)}
